@@ -828,6 +828,14 @@ fn aimed(cols: &[ColSpec]) -> Vec<P> {
         v.push(cmp(Sx::TryCast(Box::new(c("s")), CT::I64), op, li(1, CT::I64)));
         v.push(cmp(Sx::Neg(Box::new(c("a"))), op, li(1, CT::I32)));
         v.push(cmp(Sx::Ar(Box::new(c("a")), ArOp::Add, Box::new(li(1, CT::I32))), op, li(1, CT::I32)));
+        // stacked order-reversing / order-preserving wrappers: each layer of the rewrite must carry the
+        // comparison flip of the layers below it
+        for k in [-5i64, -1, 0, 1, 5] {
+            v.push(cmp(Sx::Cast(Box::new(Sx::Neg(Box::new(c("a")))), CT::I64), op, li(k, CT::I64)));
+            v.push(cmp(Sx::TryCast(Box::new(Sx::Neg(Box::new(c("a")))), CT::I64), op, li(k, CT::I64)));
+            v.push(cmp(Sx::Neg(Box::new(Sx::Cast(Box::new(c("a")), CT::I64))), op, li(k, CT::I64)));
+            v.push(cmp(Sx::Neg(Box::new(Sx::Neg(Box::new(c("a"))))), op, li(k, CT::I32)));
+        }
         v.push(cmp(c("b"), op, c("c")));
         v.push(not(cmp(c("a"), op, li(1, CT::I32))));
     }
